@@ -109,3 +109,9 @@ Proof. unfold zlen. now rewrite map_length. Qed.
 
 Lemma takez_dropz {A} (l : list A) n : takez n l ++ dropz n l = l.
 Proof. unfold takez, dropz. apply firstn_skipn. Qed.
+
+Lemma takez_all' {A} (l : list A) n : zlen l <= n -> takez n l = l.
+Proof. intros. unfold takez. apply firstn_all2. unfold zlen in *. lia. Qed.
+
+Lemma dropz_all' {A} (l : list A) n : zlen l <= n -> dropz n l = [].
+Proof. intros. unfold dropz. apply skipn_all2. unfold zlen in *. lia. Qed.
